@@ -682,6 +682,7 @@ func corpus() {
 }
 
 func TestC20(t *testing.T) {
+	t.Parallel() // CPU-bound; TestC20Stack mostly waits on sockets
 	rec.SetRule("inputs = the repo's own provider fixtures (listings, last chunks, chat.completion bodies, SSE streams, error bodies) and hostile constants (deep nesting, 1 MiB strings, huge/overflowing/1e999 numbers, NaN-like strings, duplicate keys, BOM, invalid UTF-8, NUL, empty, wrong JSON types, nameless/duplicate entries), unchanged and under rapid-drawn mutations (byte flips, splices of two seeds, truncations, hostile-token insertion, chunk duplication, SSE line edits; JSON-aware: retype a value, hostile number, delete key, duplicate key, duplicate entry, blank a name, deep-nest, long string), each fed to every shipped profile's listing parser / the metrics extractor for every profile / TransformResponse / TransformStreamingResponse; stack level: poisoned discovery rounds and hostile completion/error/health bodies through a booted Olla. evaluations = judged calls (input x profile); non-trivial = the input parses as JSON (stream: carries a JSON data line) and differs from every seed and hostile constant; distinct by SHA-256 of the input")
 	rec.Assume("metrics: integer fields are required to be >= 0 only when the input contains no '-' byte and no \\u002d escape (coarser than 'all numeric fields non-negative', never stricter)")
 	rec.Assume("translators: token counts in translated usage are not judged (the property only requires a result or an error); SSE block start/stop pairing is not judged")
@@ -696,4 +697,4 @@ func TestC20(t *testing.T) {
 	ev.Check(t, rec, "mutations", rec.Pick(quickMutations, 400000), genCase, runCase)
 }
 
-const quickMutations = 9000
+const quickMutations = 20000
